@@ -38,6 +38,18 @@ try:
             out['repeat:%s/%s' % (method, cm)] = ids == [lex[k, 'lingpyid'] for k in sorted(lex._data)]
         except Exception as ex:  # noqa
             out['ids:%s/%s' % (method, cm)] = 'raised ' + type(ex).__name__
+    # the other way of building the random distribution: Markov-generated pseudo-words
+    try:
+        random.seed(4321)
+        lex2 = LexStat(d)
+        lex2.get_scorer(method='markov', runs=30, rands=12, limit=60, threshold=0.7)
+        chars2 = sorted(lex2.cscorer.chars2int)
+        out['scorer:markov'] = dig([[round(lex2.cscorer[a, b], 9) for b in chars2] for a in chars2])
+        out['scorer_symmetric'] = out['scorer_symmetric'] and all(lex2.cscorer[a, b] == lex2.cscorer[b, a] for a in chars2 for b in chars2)
+        lex2.cluster(method='lexstat', cluster_method='upgma', threshold=0.55, ref='mkid', override=True)
+        out['ids:lexstat-markov/upgma'] = dig([lex2[k, 'mkid'] for k in sorted(lex2._data)])
+    except Exception as ex:  # noqa
+        out['scorer:markov'] = 'raised ' + type(ex).__name__
     lex.cluster(method='sca', threshold=0.45, ref='scaid', override=True)
     alm = Alignments(lex, ref='scaid')
     alm.align()
